@@ -89,8 +89,10 @@ bool ops_xmlfault(World &w, const Op &o) {
     int si = w.pick(o.u("r")); if (si < 0) return true; Replica &S = w.r[si];
     // the stored document: this replica's own export (v3 / v2) or a corpus file
     std::string doc; int src = (int)(o.u("src") % 4); std::string srcname;
-    if (src <= 1) { char *xb = nullptr; int xl = 0; if (hwloc_topology_export_xmlbuffer(S.t, &xb, &xl, src == 1 ? HWLOC_TOPOLOGY_EXPORT_XML_FLAG_V2 : 0) == 0 && xb) { doc.assign(xb, xl > 0 ? (size_t)xl - 1 : 0); hwloc_free_xmlbuffer(S.t, xb); } srcname = src ? "export-v2" : "export-v3"; }
-    else { std::vector<std::string> c = corpus_xml(); if (c.empty()) return true; srcname = c[o.u("file") % c.size()]; std::string path = repo_path() + "/tests/hwloc/xml/" + srcname; FILE *fp = fopen(path.c_str(), "rb"); if (fp) { char tmp[65536]; size_t n; while ((n = fread(tmp, 1, sizeof tmp, fp)) > 0) doc.append(tmp, n); fclose(fp); } }
+    bool withud = src <= 1 && ((o.u("fs") >> 25) & 1);   // half of the exported documents carry <userdata> records and are loaded with an import callback installed
+    if (withud) { doc = export_with_userdata(w, S, src == 1, o.u("fs") >> 26); srcname = src ? "export-v2+userdata" : "export-v3+userdata"; if (!doc.empty()) r.count("probe.xmlfault_document_with_userdata"); }
+    if (src <= 1 && doc.empty()) { withud = false; char *xb = nullptr; int xl = 0; if (hwloc_topology_export_xmlbuffer(S.t, &xb, &xl, src == 1 ? HWLOC_TOPOLOGY_EXPORT_XML_FLAG_V2 : 0) == 0 && xb) { doc.assign(xb, xl > 0 ? (size_t)xl - 1 : 0); hwloc_free_xmlbuffer(S.t, xb); } srcname = src ? "export-v2" : "export-v3"; }
+    else if (src > 1) { std::vector<std::string> c = corpus_xml(); if (c.empty()) return true; srcname = c[o.u("file") % c.size()]; std::string path = repo_path() + "/tests/hwloc/xml/" + srcname; FILE *fp = fopen(path.c_str(), "rb"); if (fp) { char tmp[65536]; size_t n; while ((n = fread(tmp, 1, sizeof tmp, fp)) > 0) doc.append(tmp, n); fclose(fp); } }
     if (doc.empty()) { r.ev("xml_fault: no document"); return true; }
     const std::string orig = doc;
     Rng g(o.u("fs")); int nf = 1 + (int)(o.u("nf") % 3); Fault last; std::string desc;
@@ -100,6 +102,7 @@ bool ops_xmlfault(World &w, const Op &o) {
     hwloc_topology_t t = nullptr; hwloc_topology_init(&t);
     if (o.u("filt") & 1) hwloc_topology_set_all_types_filter(t, HWLOC_TYPE_FILTER_KEEP_ALL); if (o.u("filt") & 2) hwloc_topology_set_io_types_filter(t, HWLOC_TYPE_FILTER_KEEP_IMPORTANT);
     hwloc_topology_set_flags(t, (o.u("filt") & 4) ? HWLOC_TOPOLOGY_FLAG_INCLUDE_DISALLOWED : 0);
+    if (withud || ((o.u("fs") >> 27) & 3) == 0) install_reading_import_cb(t);
     std::string path; int rc1; char *heap = nullptr;
     if (tofile) { path = std::string(scratch_dir()) + "/fault." + std::to_string(w.next_token++) + ".xml"; FILE *fp = fopen(path.c_str(), "wb"); if (fp) { fwrite(doc.data(), 1, doc.size(), fp); fclose(fp); } rc1 = hwloc_topology_set_xml(t, path.c_str()); }
     else { // exact-size heap copies: size with the final NUL, size shorter than the text, missing final NUL inside the allocation
@@ -123,12 +126,16 @@ bool ops_xmlfault(World &w, const Op &o) {
         int variant = (int)((o.u("fs") >> 17) & 3); size_t nsnap = snapshot_count(); long si = nsnap ? (long)((o.u("fs") >> 20) % nsnap) : -1;
         if (variant == 2 && (si < 0 || strcmp(snapshot_kind((size_t)si), "linux"))) variant = 0;
         auto configure = [&](hwloc_topology_t h) { if (o.u("filt") & 1) hwloc_topology_set_all_types_filter(h, HWLOC_TYPE_FILTER_KEEP_ALL); if (o.u("filt") & 2) hwloc_topology_set_io_types_filter(h, HWLOC_TYPE_FILTER_KEEP_IMPORTANT); hwloc_topology_set_flags(h, (o.u("filt") & 4) ? HWLOC_TOPOLOGY_FLAG_INCLUDE_DISALLOWED : 0); };
+        // half of the synthetic / XML reloads are reconfigured with IS_THISSYSTEM: the this-system state (and with it the binding hooks and support bits the
+        // topology advertises) is recomputed by every load and must not remember the failed attempt (no binding call is ever made here)
+        bool ts = variant != 2 && ((o.u("fs") >> 23) & 1);
         auto load_from = [&](hwloc_topology_t h, int *rap) { int ra = 0, rb;
+          if (ts) hwloc_topology_set_flags(h, ((o.u("filt") & 4) ? HWLOC_TOPOLOGY_FLAG_INCLUDE_DISALLOWED : 0) | HWLOC_TOPOLOGY_FLAG_IS_THISSYSTEM);
           if (variant == 1) ra = hwloc_topology_set_xmlbuffer(h, orig.c_str(), (int)orig.size() + 1); else if (variant != 2) ra = hwloc_topology_set_synthetic(h, "pack:2 numa:1 core:2 pu:2");
           if (ra) rb = -1; else if (variant == 2) { std::string desc; rb = snapshot_load(h, (size_t)si, 0, 0, &desc); } else rb = hwloc_topology_load(h);
           *rap = ra; return rb; };
         int ra = 0; int rb = load_from(t, &ra);
-        r.count(variant == 1 ? "probe.xmlfault_reload_undamaged_document" : variant == 2 ? "probe.xmlfault_reload_snapshot" : "probe.xmlfault_reload_synthetic");
+        if (ts) r.count("probe.xmlfault_reload_as_thissystem"); r.count(variant == 1 ? "probe.xmlfault_reload_undamaged_document" : variant == 2 ? "probe.xmlfault_reload_snapshot" : "probe.xmlfault_reload_synthetic");
         r.ev("xml_fault reload variant=%d -> set %d load %d", variant, ra, rb);
         if (ra || rb) { hwloc_topology_destroy(t); viol0(w, own, "xmlfault.reload_after_failure", "after a failed XML load the same topology could not be configured and loaded again (variant %d: set %d load %d)", variant, ra, rb); }
         Dump d; take_dump(t, d, DUMP_FULL); std::string e = wf_check(t, d); if (!e.empty()) { hwloc_topology_destroy(t); viol(w, own, e.substr(0, e.find(": ")), "topology loaded after a failed XML load: %s", e.c_str()); }
